@@ -158,7 +158,7 @@ def driver_lookup_rules(ctx, rule='R5'):
              'instantiate, connect with the URI and callbacks, return the instance; body %s' % body)
     ok = len(hs) == 1 and handler_names(hs[0]) == ['WrongUriType'] and [norm(s) for s in effective(hs[0].body)] in (['continue'], []) and not rest and not tr[0].finalbody
     ctx.inst(rule, gl, 'continue-only-on-wrong-scheme', ok, 'only WrongUriType moves on to the next driver; handlers %s' % [handler_names(h) for h in hs])
-    after = [norm(s) for s in effective(gl.node.body[gl.node.body.index(lp[0]) + 1:])]
+    after = [norm(s) for s in effective(lp[0].orelse) + effective(gl.node.body[gl.node.body.index(lp[0]) + 1:])]      # (`for .. else: return None`: the loop has no break)
     ctx.inst(rule, gl, 'none-when-unclaimed', after == ['return None'], 'no driver found -> None')
 
 
